@@ -84,7 +84,7 @@ pub fn budget(prop: &str, tier: &str) -> Budget {
         "C09" => (4000, 120_000),
         "C10" => (4000, 120_000),
         "C15" => (2400, 40_000),
-        "C18" => (1500, 30_000),
+        "C18" => (1000, 30_000),
         _ => (100, 1000),
     };
     let scale = std::env::var("VERIF_RUNS_SCALE")
